@@ -47,8 +47,8 @@ ASSUMPTIONS = [
   'after a rejected rename only formula texts and ids are compared (value-level atomicity of failed bundles is C04)',
   'values of trigger-formula data columns are compared too (a rename must not recalculate them)',
 ]
-BUDGET = {'quick': dict(examples=640, shards=16, max_seconds=50),
-          'thorough': dict(examples=9000, shards=16, max_seconds=560)}
+BUDGET = {'quick': dict(examples=640, shards=16, max_seconds=40),
+          'thorough': dict(examples=9000, shards=16, max_seconds=540)}
 SHRINK_BUDGET = {'quick': 40, 'thorough': 200}
 
 TABLE_POOL = ['Src', 'People', 'Orders', 'Items2', 'Dst', 'Mid', 'Addr_book', 'Zeta', 'Tasks', 'Proj']
@@ -752,6 +752,10 @@ def judge(stt, before, after, reply, out, uas, fn_table):
     where = '%s.%s' % (after['tables'][meta['parentId']]['tableId'], meta['colId'])
     gen = stt['formulas'].get(cr)
     label = gen[0] if gen else ('auto:' + re.sub(r'\W+', '_', old)[:20])
+    if cr in stt.get('drifted', ()):
+      out.cls('drifted-formula-not-judged')
+      bad_text.add(cr)
+      continue
     # (2) token-level diff (template-independent)
     td = token_diff(old, new, name_pairs, col_pairs)
     # (3) expected text from the generating template
@@ -768,7 +772,10 @@ def judge(stt, before, after, reply, out, uas, fn_table):
         continue
       if new != exp:
         bad_text.add(cr)
-        stt['formulas'].pop(cr)      # no longer follows its template: later renames judge it by (1) and (2) only
+        # no longer follows its template; its later behaviour is a consequence of this failure (e.g. a stale
+        # sort_by only surfaces as KeyError when the lookup is rebuilt by a later rename): not judged again
+        stt['formulas'].pop(cr)
+        stt.setdefault('drifted', set()).add(cr)
         kind, ctx = slot_report(parts, old_names, new_names, frozen, new)
         if kind in ('not-rewritten', 'lookalike-rewritten') and not td:
           fail('C16:%s:%s' % ('mention-not-rewritten' if kind == 'not-rewritten' else kind,
@@ -807,6 +814,7 @@ def judge(stt, before, after, reply, out, uas, fn_table):
       if b != va.get(r):
         diffs.append([r, vb.get(r), va.get(r)])
     if diffs:
+      stt.setdefault('drifted', set()).add(cr)     # its values are off from here on: not judged again
       gen = stt['formulas'].get(cr)
       meta = after['cols'][cr]
       label = gen[0] if gen else ('auto:' + re.sub(r'\W+', '_', before['cols'][cr]['formula'])[:20])
